@@ -281,5 +281,7 @@ def run(prop, tier, seed, root):
     out["evaluations"] = len(conflicts) + len(controls)
     out["distinct_nontrivial"] = len(conflicts) + len(controls)
     out["samples"] = [f"{pid}: {' '.join(body.split())}" for pid, body in conflicts[:3]] + [f"{pid}: {' '.join(body.split())}" for pid, body in controls[:2]]
+    out["cfgs"] = sorted(PRODUCERS)
+    out["opsigs"] = sorted({pid.split("|", 1)[1] for pid, _ in conflicts})
     out["wall_s"] = time.time() - t0
     return out
